@@ -5,6 +5,7 @@ import (
 	"go/constant"
 	"go/token"
 	"go/types"
+	"sort"
 	"strings"
 
 	"golang.org/x/tools/go/ssa"
@@ -14,7 +15,7 @@ import (
 // the offset that the arm's own arity test establishes.
 
 func init() {
-	register(&Rule{Name: "R-CALL-ALIGN", Min: 10,
+	register(&Rule{Name: "R-CALL-ALIGN", Min: 8,
 		Doc: "in the typing rule of a call and in its two transition functions: wherever the i-th formal parameter of the callee is paired with the j-th actual parameter of the call (type comparison of a consumed actual against a formal; substitution of a formal by an actual), j - i equals the difference between the number of actuals and the number of formals that the dominating arity test of that arm established (0, or 1 when an explicit self is passed), and an explicit index loop starts at that offset",
 		Run: runCallAlign})
 }
@@ -49,6 +50,28 @@ func runCallAlign(p *Program, r *RuleResult) {
 		if m := p.MethodOpt(callT, name); m != nil {
 			fns = append(fns, m)
 			fns = append(fns, allAnon(m)...)
+		}
+	}
+	// helpers of those functions (a parameter loop moved into a method of its own): judged
+	// once per call site, with the offset the calling arm established
+	type hsiteT struct {
+		caller *ssa.Function
+		call   ssa.CallInstruction
+	}
+	helperSites := map[*ssa.Function][]hsiteT{}
+	{
+		inFns := map[*ssa.Function]bool{}
+		for _, f := range fns {
+			inFns[f] = true
+		}
+		for _, f := range fns {
+			for _, c := range p.callsIn(f) {
+				h := c.Common().StaticCallee()
+				if h == nil || inFns[h] || !p.isFirstParty(h) || h.Blocks == nil || h.Pkg == nil || h.Pkg.Pkg.Path() != processPkg {
+					continue
+				}
+				helperSites[h] = append(helperSites[h], hsiteT{f, c})
+			}
 		}
 	}
 	// is v the length of the actuals / formals?
@@ -168,20 +191,22 @@ func runCallAlign(p *Program, r *RuleResult) {
 	type idx struct {
 		base ssa.Value
 		c    int64
+		sym  *ssa.Parameter // an integer parameter of the enclosing helper added (k = 1) or subtracted (k = -1)
+		k    int64
 	}
 	var idxOf func(v ssa.Value) idx
 	idxOf = func(v ssa.Value) idx {
 		switch x := v.(type) {
 		case *ssa.Const:
 			c, _ := constant.Int64Val(constant.ToInt(x.Value))
-			return idx{nil, c}
+			return idx{base: nil, c: c}
 		case *ssa.BinOp:
 			if k, ok := x.Y.(*ssa.Const); ok && (x.Op == token.ADD || x.Op == token.SUB) {
 				// the rotated range index (phi + 1, fed back into the phi) is one value
 				if ph, isPhi := x.X.(*ssa.Phi); isPhi && x.Op == token.ADD {
 					for _, e := range ph.Edges {
 						if e == ssa.Value(x) {
-							return idx{x, 0}
+							return idx{base: x}
 						}
 					}
 				}
@@ -190,10 +215,21 @@ func runCallAlign(p *Program, r *RuleResult) {
 					kv = -kv
 				}
 				in := idxOf(x.X)
-				return idx{in.base, in.c + kv}
+				in.c += kv
+				return in
+			}
+			if prm, ok := x.Y.(*ssa.Parameter); ok && (x.Op == token.ADD || x.Op == token.SUB) {
+				in := idxOf(x.X)
+				if in.sym == nil {
+					in.sym, in.k = prm, 1
+					if x.Op == token.SUB {
+						in.k = -1
+					}
+					return in
+				}
 			}
 		}
-		return idx{v, 0}
+		return idx{base: v}
 	}
 	// index expression of an element access: value loaded from IndexAddr(slice, i)
 	var elemIndex func(v ssa.Value, wantActuals bool, d int) (ssa.Value, bool)
@@ -233,7 +269,12 @@ func runCallAlign(p *Program, r *RuleResult) {
 	}
 	eqT := p.Func(typesPkg, "EqualType")
 	n := 0
-	for _, fn := range fns {
+	var helperList []*ssa.Function
+	for h := range helperSites {
+		helperList = append(helperList, h)
+	}
+	sort.Slice(helperList, func(i, j int) bool { return fnName(helperList[i]) < fnName(helperList[j]) })
+	for _, fn := range append(append([]*ssa.Function{}, fns...), helperList...) {
 		view := p.View(fn)
 		ord := 0
 		for _, c := range p.callsIn(fn) {
@@ -264,6 +305,80 @@ func runCallAlign(p *Program, r *RuleResult) {
 			construct := fmt.Sprintf("%s#%d", what, ord)
 			pos := p.instrPos(c)
 			want, ok := armOffset(view, c.Block())
+			if sites := helperSites[fn]; !ok && len(sites) > 0 {
+				// in a helper: the offset is the one each calling arm established, and an
+				// integer parameter in the index arithmetic is the constant passed there
+				fi, ai := idxOf(formalI), idxOf(actualI)
+				if fi.base != ai.base {
+					r.add(fnName(fn), construct, Undecided, pos, "formal and actual are indexed by unrelated expressions")
+					continue
+				}
+				for si, hs := range sites {
+					sconstruct := fmt.Sprintf("%s@call%d", construct, si+1)
+					cw, cok := armOffset(p.View(hs.caller), hs.call.Block())
+					if !cok {
+						r.add(fnName(fn), sconstruct, Undecided, p.instrPos(hs.call), "no single arity test dominates the call of this helper")
+						continue
+					}
+					val := func(prm *ssa.Parameter) (int64, bool) {
+						for i, q := range fn.Params {
+							if q == prm && i < len(hs.call.Common().Args) {
+								if k, ok := hs.call.Common().Args[i].(*ssa.Const); ok && k.Value != nil {
+									kv, _ := constant.Int64Val(constant.ToInt(k.Value))
+									return kv, true
+								}
+							}
+						}
+						return 0, false
+					}
+					got := ai.c - fi.c
+					okv := true
+					for _, t := range []idx{ai, fi} {
+						if t.sym != nil {
+							v, ok := val(t.sym)
+							if !ok {
+								okv = false
+							}
+							if t == ai {
+								got += t.k * v
+							} else {
+								got -= t.k * v
+							}
+						}
+					}
+					if !okv {
+						r.add(fnName(fn), sconstruct, Undecided, p.instrPos(hs.call), "the index offset parameter of the helper is not a constant at this call")
+						continue
+					}
+					if got != cw {
+						r.add(fnName(fn), sconstruct, Violated, p.instrPos(hs.call),
+							fmt.Sprintf("called from an arm with %d more actual(s) than formals, the helper pairs actual #i+%d with formal #i: parameters are shifted against their declarations", cw, got))
+						continue
+					}
+					// the loop starts at the offset
+					bad := false
+					if ph, isPhi := ai.base.(*ssa.Phi); isPhi {
+						for _, e := range ph.Edges {
+							start, known := int64(0), false
+							if k, ok := e.(*ssa.Const); ok {
+								start, _ = constant.Int64Val(constant.ToInt(k.Value))
+								known = true
+							} else if prm, ok := e.(*ssa.Parameter); ok {
+								start, known = val(prm)
+							}
+							if known && start+ai.c != cw {
+								r.add(fnName(fn), sconstruct, Violated, p.instrPos(hs.call),
+									fmt.Sprintf("the helper's loop pairs actuals starting at #%d, but %d leading actual(s) stand for the explicit self in the calling arm", start+ai.c, cw))
+								bad = true
+							}
+						}
+					}
+					if !bad {
+						r.add(fnName(fn), sconstruct, Holds, p.instrPos(hs.call), fmt.Sprintf("offset %d as established by the calling arm's arity test", cw))
+					}
+				}
+				continue
+			}
 			if !ok {
 				r.add(fnName(fn), construct, Undecided, pos, "no single arity test (number of actuals against number of formals) dominates this pairing")
 				continue
